@@ -32,7 +32,8 @@ ASSUMPTIONS = ["project is checked for the rank id only when the caller passes r
 
 OPS = ["construct", "splitUniform", "splitEqual", "splitNonUniform", "splitUnEqual", "truediv", "floordiv", "swizzle",
        "swap", "flatten", "merge", "flatten_unflatten", "flatten_twice", "updateCoords", "updatePayloads", "deepcopy",
-       "yaml", "fill_in_steps", "from_ragged", "split_swizzle", "split_swizzle", "flatten_elsewhere"]
+       "yaml", "fill_in_steps", "from_ragged", "split_swizzle", "split_swizzle", "flatten_elsewhere",
+       "estimate_by_fibers"]
 
 
 @st.composite
@@ -41,7 +42,7 @@ def cases(draw):
     d = draw(st.sampled_from([1, 2, 2, 3, 3, 4]))
     if op == "flatten_elsewhere":
         d = 4
-    c = {"op": op, "how": draw(st.sampled_from(["ref", "fiber", "uncompressed", "yaml", "deepcopy", "random",
+    c = {"op": op, "how": draw(st.sampled_from(["ref", "fiber", "fiber", "uncompressed", "yaml", "deepcopy", "random",
                                                  "populated"])),
          "sel": draw(st.lists(st.integers(0, 9), min_size=4, max_size=4)),
          "perm": list(draw(st.permutations([0, 1, 2, 3]))),
@@ -270,6 +271,27 @@ def check(case, rec):
                fmts=[fm, None], mutable=mut)
         if f1.getFormat(top) != fm:
             raise Violation("operand-attrs", f"{where}: the operand's format of {top} changed to {f1.getFormat(top)}")
+    elif op == "estimate_by_fibers":
+        # no declared shape: a rank learns its shape fiber by fiber.  Sibling fibers of different extents, an empty
+        # one among them, in every order
+        if d < 2:
+            return
+        kinds = [(sel[0] + i * (1 + sel[1] % 3)) % 3 for i in range(min(shape[0] + 1, 4))]     # 0 long, 1 empty, 2 short
+
+        def sub(kind, lvl):
+            if kind == 1:
+                return []
+            top = shape[lvl] - 1 if kind == 0 else 0
+            if lvl == d - 1:
+                return [[c, 1 + c] for c in sorted({0, top})] if kind == 0 else [[0, 3]]
+            return [[c, sub(kind, lvl + 1)] for c in sorted({0, top})]
+        tree = [[i, sub(k_, 1)] for i, k_ in enumerate(kinds)]
+        spec2 = {"rank_ids": ids, "shape": [len(kinds)] + shape[1:], "default": default, "tree": tree, "auth": False}
+        r = build.build_tensor(spec2, "fiber" if sel[2] % 2 else "ref")
+        where = f"tensor without declared shape built from sibling fibers of kinds {kinds} (0 long, 1 empty, 2 short)"
+        expect(r, where, ids=ids, default=default)
+        rec.cls("empty-fiber-before-shorter-sibling", any(a == 1 and 2 in kinds[i + 1:] and 0 in kinds[:i]
+                                                          for i, a in enumerate(kinds)))
     elif op == "fill_in_steps":
         # a tensor without declared shape filled in place, looked at while partly filled and again later
         pts = sorted(model.content(spec).items())
